@@ -97,34 +97,44 @@ def _attr_uses(ctx: Ctx, module_names: List[str], enum: str) -> Dict[str, Dict[s
 
 
 def rule_field_agreement(ctx: Ctx, out: Collector) -> None:
-    """RD-3: every graph attribute the builder writes is read by the run manager under the same enum
-    member and vice versa (translation and execution agree on the attribute vocabulary)."""
-    builder_mods = [m for m in ctx.p.modules if m.endswith('dag_builders.annotation.builder')]
-    manager_mods = [ctx.manager_class().module.name]
-    if not builder_mods:
-        raise AnalysisError('builder module not found')
+    """RD-3: every graph attribute the builder writes is read by the run manager under the same key and vice versa (translation
+    and execution agree on the attribute vocabulary).  Both sides are taken by value: what the interpreted `build()` leaves on
+    the nodes / edges of the builder worlds, and the keys of the run manager's reads of `graph.nodes[..]` / `graph.edges[..]` on
+    the run path - wherever the dictionaries are built or read (in line, in helpers, in another module)."""
+    from ..absint import AClass, Interp, Oracle
+    from .bw import _clean_worlds, run_build
+    from .bx import _manager_reads
+    written_n, written_e = set(), set()
+    for label, (a, b_) in _clean_worlds(ctx).items():
+        for o in run_build(ctx, a, b_):
+            if o[0] != 'value':
+                continue
+            graph = o[1][0]
+            for d in graph.attrs['nodes'].values():
+                written_n |= set(d)
+            for d in graph.attrs['edges'].values():
+                written_e |= set(d)
+    read_n, read_e = _manager_reads(ctx)
+    interp = Interp(ctx.p, Oracle())
     n = 0
-    for enum in ('NodeField', 'EdgeField'):
-        members = _enum_members(ctx, enum)
-        b = _attr_uses(ctx, builder_mods, enum)
-        m = _attr_uses(ctx, manager_mods, enum)
-        for member in members:
+    for enum, written, read in (('NodeField', written_n, read_n), ('EdgeField', written_e, read_e)):
+        ci = next((c for c in ctx.p.classes_by_name.get(enum, []) if c.module.name.startswith('ml_pipeline_engine')), None)
+        if ci is None:
+            raise AnalysisError(f'{enum} not found (RD-3 anchors vanished)')
+        for member, (ann, default) in ci.fields.items():
+            if default is None or member.startswith('_'):
+                continue
+            value = interp.eval(default, {'__module__': ci.module, '__unit__': None, '__closure__': None})
             n += 1
-            bw = b.get(member, {}).get('write', [])
-            mr = m.get(member, {}).get('read', [])
-            mw = m.get(member, {}).get('write', [])
             cons = f'{enum}.{member}::written by the builder <-> read by the manager'
-            where = ''
-            if bw:
-                where = ctx.p.loc(bw[0][0], bw[0][1])
-            elif mr:
-                where = ctx.p.loc(mr[0][0], mr[0][1])
-            if bw and mr:
-                out.ok('RD-3', cons, where, f'{len(bw)} builder write(s), {len(mr)} manager read(s)')
-            elif bw and not mr:
+            where = ctx.p.loc(ci.module, ci.node)
+            w, r = value in written, value in read
+            if w and r:
+                out.ok('RD-3', cons, where, f'written in the builder worlds, read on the run path (key {value!r})')
+            elif w and not r:
                 out.bad('RD-3', cons, where, f'the builder writes the graph attribute {enum}.{member} but the run manager never reads '
                                              f'it: that part of the declaration is ignored at run time')
-            elif mr and not bw and not mw:
+            elif r and not w:
                 out.bad('RD-3', cons, where, f'the run manager reads the graph attribute {enum}.{member} but the builder never '
                                              f'writes it: the manager decides on an attribute that is always missing')
             else:
